@@ -84,8 +84,11 @@ where
         let weights = self.dataset.weights.clone();
 
         if !self.target_or_feature {
-            // This branch should only run for 2D targets
-            targets.collapse_axis(Axis(1), self.idx);
+            // a single-target dataset stores its targets as a vector: there is no column to select,
+            // the one item of the iteration carries the whole vector
+            if targets.ndim() > 1 {
+                targets.collapse_axis(Axis(1), self.idx);
+            }
             feature_names = self.dataset.feature_names.clone();
             if self.dataset.target_names.is_empty() {
                 target_names = Vec::new();
